@@ -89,9 +89,18 @@ def locations(vd, drv, wd, rng, tier):
     nid = [10]
     def newid():
         nid[0] += 1; return nid[0]
+    # every attribute of the location classes (Loc!LocAttrs) carries one fixed two-operation expression;
+    # DW_AT_location carries all of them
+    locattrs = [v for v in vecs if v["kind"] == "locattr"]
+    fixed = next(e for e in exprs if e["kind"] == "expr" and len(e["ops"]) == 2 and e["ops"][1]["atom"] == "fbreg")
+    work = [(e, 2, "location") for e in exprs] + [(fixed, la["code"], la["at"]) for la in locattrs if la["at"] != "location"]
     for ver, form in ((4, "exprloc"), (5, "exprloc"), (3, "block1"), (3, "loclist"), (2, "loclist")):
         kids = []
-        for e in exprs:
+        for e, atcode, atname in work:
+            if atname == "data_member_location" and form == "loclist":
+                # data4 / data8 of DW_AT_data_member_location is read by libdw as a constant offset in every
+                # version (the class is ambiguous in DWARF 3); not dwgrep's decision
+                continue
             did = newid()
             if form == "loclist":
                 nr = 1 + (did % 3)
@@ -102,30 +111,30 @@ def locations(vd, drv, wd, rng, tier):
                 if not e["ops"]:
                     ranges = ranges[:1]
                 val = [(lo, hi, [(c[0], c[1]) for c in cs]) for lo, hi, cs in ranges]
-                plan.append((did, form, ranges))
+                plan.append((did, form, ranges, atname))
             else:
                 c = concretize(e["ops"], rng)
                 if ver == 3 and any(x[0] in (0x9e, 0x9f, 0xf3, 0x9d) for x in c) and False:
                     continue
                 val = [(x[0], x[1]) for x in c]
-                plan.append((did, form, [(0, 2**64 - 1, c)]))
+                plan.append((did, form, [(0, 2**64 - 1, c)], atname))
             kids.append({"id": did, "tag": 0x34, "children": [], "attrs": [{"name": 3, "form": "string", "value": "v%d" % did},
-                                                                            {"name": 2, "form": form, "value": val}]})
+                                                                            {"name": atcode, "form": form, "value": val}]})
         units.append({"kind": "cu", "version": ver, "table": len(units),
                       "root": {"id": newid(), "tag": 0x11, "children": kids, "attrs": [{"name": 3, "form": "string", "value": "u%d" % ver},
                                                                                      {"name": 0x11, "form": "addr", "value": 0}]}})
     o, offs, tabs = dwarfgen.build({"units": units}, wd, "loc")
     b = D.Built(o, offs)
-    q = ("entry (offset == %d) [[@AT_location [address low, address high, length, [elem [offset, label value, [value]]], "
-         "[relem label value], [elem pos], [relem pos]]], [@AT_location (?OP_lit3, ?OP_constu, ?OP_bregx, ?OP_addr, ?OP_GNU_entry_value) 1], "
-         "[@AT_location (!OP_lit3, !OP_constu, !OP_bregx, !OP_addr, !OP_GNU_entry_value) 0]]")
-    jobs = [(o, q % b.off[did], False) for did, form, rs in plan]
+    q = ("entry (offset == %d) [[@AT_%s [address low, address high, length, [elem [offset, label value, [value]]], "
+         "[relem label value], [elem pos], [relem pos]]], [@AT_%s (?OP_lit3, ?OP_constu, ?OP_bregx, ?OP_addr, ?OP_GNU_entry_value) 1], "
+         "[@AT_%s (!OP_lit3, !OP_constu, !OP_bregx, !OP_addr, !OP_GNU_entry_value) 0]]")
+    jobs = [(o, q % (b.off[did], at, at, at), False) for did, form, rs, at in plan]
     recs = D.run_queries(drv, jobs, wd, "loc")
     nok = 0
-    for (did, form, ranges), rec in zip(plan, recs):
+    for (did, form, ranges, atname), rec in zip(plan, recs):
         vd.cov["evaluations"] += 1
         atoms = [c[0] for c in ranges[0][2]]
-        key = "location (%s) ops=%s" % (form, [hex(a) for a in atoms])
+        key = "%s (%s) ops=%s" % (atname, form, [hex(a) for a in atoms])
         if not rec or rec.get("status") != "ok" or len(rec["results"]) != 1:
             vd.observe(key + ": query failed", {"observed": rec, "die": did}); continue
         g = rec["results"][0][-1]["v"]
